@@ -99,7 +99,7 @@ def build_flavor(flavor, quiet=True):
            "-I" + os.path.join(REPO, "backend"),
            "-I/usr/include/hdf5/serial", "-I" + os.path.join(VERIF, "harness")]
     cxxflags = "-std=c++17 -Wall -Wno-deprecated-declarations -Wno-unused-function " + fl["cxx"] + " " + " ".join(inc)
-    ldflags = "%s -L%s -Wl,-rpath,%s -lnixio -lhdf5_serial -lboost_filesystem -lboost_system -lboost_regex -lpthread -ldl" % (
+    ldflags = "%s -rdynamic -L%s -Wl,-rpath,%s -lnixio -lhdf5_serial -lboost_filesystem -lboost_system -lboost_regex -lpthread -ldl" % (
         fl["ld"], nixdir, nixdir)
     lines = ["cxxflags = " + cxxflags, "ldflags = " + ldflags,
              "rule cxx", "  command = g++ $cxxflags -MMD -MF $out.d -c $in -o $out",
